@@ -10,7 +10,8 @@ static const time_t T0 = 1700000000;
 
 /* ================================================================== JSON tree family */
 static json_t *TREES[4096];
-static int NTREES;
+static int NTREES, first_nul_tree, last_nul_tree;
+static long n_refused_nul;
 
 static json_t *leaf(int i)
 {
@@ -60,6 +61,13 @@ static void build_trees(void)
 		TREES[NTREES++] = json_pack("[OO]", TREES[i], TREES[(i * 7) % d0]);
 		TREES[NTREES++] = json_pack("{sOsO}", "a", TREES[(i * 5) % d0], "zz", TREES[i]);
 	}
+	/* strings with an embedded NUL (as \u0000 in the JSON text): the builder may refuse them, but whatever it signs must verify */
+	first_nul_tree = NTREES;
+	TREES[NTREES++] = json_stringn("a\0b", 3);
+	TREES[NTREES++] = json_pack("[o]", json_stringn("\0", 1));
+	TREES[NTREES++] = json_pack("{so}", "a", json_stringn("x\0", 2));
+	TREES[NTREES++] = json_pack("{s{so}}", "n", "deep", json_stringn("\0y", 2));
+	last_nul_tree = NTREES - 1;
 	/* long strings */
 	char *big = malloc(70000);
 	memset(big, 'L', 65536);
@@ -177,6 +185,11 @@ static void roundtrip_one(int pi, int tree, int sp, int vp, int topt)
 	jwt_builder_time_offset(b, JWT_CLAIM_EXP, exp);
 	char *tok = ok ? jwt_builder_generate(b) : NULL;
 	n_tokens++;
+	if (!tok && !ok && tree >= first_nul_tree && tree <= last_nul_tree) {
+		n_refused_nul++;   /* jansson refuses \u0000 by default: no token, nothing to verify */
+		vf_obs(31);
+		goto out;
+	}
 	if (!tok) {
 		vf_violation("generate-fails", "%s/%s under %s: generate failed for tree %d (%s): %s", p->keyname, tok_alg_names[p->alg], PROV[sp], tree, ok ? "generate" : "configuration",
 			     jwt_builder_error_msg(b));
@@ -337,6 +350,9 @@ static void enumerate_c05(void)
 					rc_rng_reseed(vf_case_index());
 					for (int t = from; t < from + 40 * tstep && t < NTREES; t += tstep)
 						roundtrip_one(pi, t, sp, vp, t % 8);
+					if (from == 0)
+						for (int t = first_nul_tree; t <= last_nul_tree; t++)
+							roundtrip_one(pi, t, sp, vp, t % 8);
 					vf_nontrivial_case();
 				}
 			}
@@ -367,6 +383,7 @@ static void enumerate_c05(void)
 	vf_count("verifications", n_verifies);
 	vf_count("roundtrips_content_equal", n_equal);
 	vf_count("=json_trees", NTREES);
+	vf_count("documents_with_NUL_refused_by_builder", n_refused_nul);
 	for (int sp = 0; sp < 2; sp++)
 		for (int a = 0; a < 3; a++)
 			for (int d = 0; d < 3; d++) {
